@@ -5,7 +5,8 @@ import SR.Proofs.MarketRun
 
 Helper definitions and lemmas for `SR/Props/C05Oracle.lean`:
 
-* `obody`: the body of `oracle` for one event, the recursive call abstracted (`oracle_cons`);
+* `oracleR`: `Drv.C05.oracle` with the `.split` clause relaxed to conservation; `obody`: its body for one event, the
+  recursive call abstracted (`oracle_cons`);
 * `evStep` / `mkRun`: the model side of one event / of an event list, exactly as the driver's `replay` computes it
   (`replay_of_mkRun`), answers as data (`Ans`) instead of strings, `none` where `replay` answers `!disabled`,
   `!unwoken`, `!spurious`;
@@ -77,8 +78,9 @@ def obody (k : Nat) (o : Obs) (e : Ev) (r : SExp) (cont : Obs → Except String 
         if closedKnown then
           if after.isEmpty then cont { o with locs := o.locs.set w [] }
           else .error "split-on-a-closed-market-kept-jobs"
-        else if after != loc.take after.length then .error "split-reordered-or-invented-jobs"
-        else cont { o with locs := o.locs.set w after, market := loc.drop after.length ++ o.market }
+        else match eraseAll? loc after with
+          | none => .error "split-invented-or-duplicated-jobs"
+          | some rest => cont { o with locs := o.locs.set w after, market := rest ++ o.market }
     | .work w c fresh =>
       if fresh.any (o.created.contains ·) then .error "harness:token-reused"
       else
@@ -108,9 +110,111 @@ def obody (k : Nat) (o : Obs) (e : Ev) (r : SExp) (cont : Obs → Except String 
           else cont { o with shutSeen := true, mustWake := o.parked }
         else cont o
 
+/-- **the relaxed oracle**: `Drv.C05.oracle` with ONE clause changed — on an open market `split` no longer demands that
+    the kept jobs are the PREFIX of the caller's deque (`after = loc.take after.length`: C05 does not pin which jobs
+    `split_and_push` keeps) but only conservation: the kept jobs are a sub-multiset of the deque (`eraseAll?`), the rest
+    is what went to the market.  Everything below is about `oracleR`. -/
+def oracleR (k : Nat) : Obs → List Ev → List SExp → Except String Obs
+  | o, [], [] => .ok o
+  | _, [], _ => .error "malformed"
+  | _, _, [] => .error "malformed"
+  | o, e :: es, r :: rs =>
+    let closedKnown := o.shutSeen || o.dropSeen
+    let active (w : Nat) : Bool := w < k && !o.parked.contains w && !o.exited.contains w
+    -- a worker may only act when awake; sleepers of a drop must wake before anything else happens
+    let pre : Option String := match e with
+      | .wake w => if o.parked.contains w then none else some "wake-of-a-worker-that-was-not-asleep"
+      | .pop w | .push w _ | .split w | .work w _ _ | .drop w =>
+        if !active w then some "harness:inactive-worker-acts"
+        else if !o.mustWake.isEmpty then some "a-worker-asleep-at-a-stop-did-not-wake"
+        else none
+      | _ => if !o.mustWake.isEmpty then some "a-worker-asleep-at-a-stop-did-not-wake" else none
+    match pre with
+    | some err => .error err
+    | none =>
+    let popLike (w : Nat) (isWake : Bool) : Except String Obs :=
+      let o := { o with parked := o.parked.erase w, mustWake := o.mustWake.erase w }
+      match r with
+      | .atom "park" =>
+        if !o.market.isEmpty then .error "worker-sleeps-while-jobs-are-on-the-market"
+        else if o.emptyBatches > 0 then .error "worker-sleeps-while-a-batch-is-on-the-market"
+        else if (awake o k).all (· == w) then .error "everybody-asleep:nobody-left-to-wake-them"
+        else if !isWake && closedKnown then .error "pop-sleeps-on-a-closed-market"
+        else oracleR k { o with parked := w :: o.parked } es rs
+      | r =>
+        match resToks? r with
+        | none => .error "malformed-result"
+        | some [] =>
+          oracleR k { o with emptyBatches := o.emptyBatches - 1 } es rs
+        | some b =>
+          if o.dropSeen then .error "jobs-handed-out-after-a-drop"
+          else if !isWake && o.shutSeen then .error "pop-hands-out-jobs-on-a-closed-market"
+          else match eraseAll? o.market b with
+            | none => .error "job-handed-out-that-is-not-on-the-market(duplicated-or-invented)"
+            | some m' =>
+              oracleR k { o with market := m', locs := o.locs.set w (o.locs.getD w [] ++ b) } es rs
+    match e with
+    | .xpush toks =>
+      if toks.any (o.created.contains ·) then .error "harness:token-reused"
+      else
+        let o := { o with created := toks ++ o.created }
+        if closedKnown then oracleR k o es rs
+        else if toks.isEmpty then oracleR k { o with emptyBatches := o.emptyBatches + 1 } es rs
+        else oracleR k { o with market := toks ++ o.market } es rs
+    | .pop w => popLike w false
+    | .wake w => popLike w true
+    | .push w n =>
+      let loc := o.locs.getD w []
+      let o' := { o with locs := o.locs.set w (loc.drop n) }
+      if closedKnown then oracleR k o' es rs
+      else if (loc.take n).isEmpty then oracleR k { o' with emptyBatches := o'.emptyBatches + 1 } es rs
+      else oracleR k { o' with market := loc.take n ++ o'.market } es rs
+    | .split w =>
+      match resToks? r with
+      | none => .error "malformed-result"
+      | some after =>
+        let loc := o.locs.getD w []
+        if closedKnown then
+          if after.isEmpty then oracleR k { o with locs := o.locs.set w [] } es rs
+          else .error "split-on-a-closed-market-kept-jobs"
+        else match eraseAll? loc after with
+          | none => .error "split-invented-or-duplicated-jobs"
+          | some rest => oracleR k { o with locs := o.locs.set w after, market := rest ++ o.market } es rs
+    | .work w c fresh =>
+      if fresh.any (o.created.contains ·) then .error "harness:token-reused"
+      else
+        let loc := o.locs.getD w []
+        oracleR k { o with locs := o.locs.set w (fresh ++ loc.take (loc.length - c)), created := fresh ++ o.created } es rs
+    | .drop w =>
+      oracleR k { o with exited := w :: o.exited, locs := o.locs.set w [], dropSeen := true, market := [],
+                         emptyBatches := 0, mustWake := o.parked } es rs
+    | .xdrop =>
+      oracleR k { o with dropSeen := true, market := [], emptyBatches := 0, mustWake := o.parked } es rs
+    | .tfire => oracleR k { o with shutSeen := true } es rs
+    | .clone => oracleR k o es rs
+    | .closed =>
+      match r.bool? with
+      | none => .error "malformed-result"
+      | some b =>
+        -- closed means: shut down, nothing on the market (and all counted workers gone)
+        if b && !(o.market.isEmpty && o.emptyBatches == 0) then .error "is_closed-with-jobs-on-the-market"
+        else if b then oracleR k { o with shutSeen := true } es rs
+        else oracleR k o es rs
+    | .shut =>
+      match r.bool? with
+      | none => .error "malformed-result"
+      | some b =>
+        if !b && closedKnown then .error "market-reopened-or-stop-not-visible"
+        else if b && !closedKnown then
+          -- closed by the last active worker: legitimate only if nobody is left asleep un-notified
+          -- with jobs around; from now on nothing may be handed out by `pop`
+          if !o.market.isEmpty then .error "closed-by-last-worker-with-jobs-on-the-market"
+          else oracleR k { o with shutSeen := true, mustWake := o.parked } es rs
+        else oracleR k o es rs
+
 theorem oracle_cons (k : Nat) (o : Obs) (e : Ev) (es : List Ev) (r : SExp) (rs : List SExp) :
-    oracle k o (e :: es) (r :: rs) = obody k o e r (fun o' => oracle k o' es rs) := by
-  cases e <;> simp only [oracle, obody] <;> rfl
+    oracleR k o (e :: es) (r :: rs) = obody k o e r (fun o' => oracleR k o' es rs) := by
+  cases e <;> simp only [oracleR, obody] <;> rfl
 
 
 /-! ### the model side of an event list -/
@@ -782,20 +886,21 @@ theorem sim_split {k s o picks s' a r w} (h : Sim k s o)
       have : (s.locs.set w sl.1).getD w [] = sl.1 := getD_set_self _ _ _ hwl
       have hr' : resToks? r = some ((s.locs.set w sl.1).getD w []) := hr
       rw [this] at hr'; exact hr'
-    refine ⟨{ o with locs := o.locs.set w sl.1, market := (o.locs.getD w []).drop sl.1.length ++ o.market }, ?_, rfl, ?_⟩
+    have hperm : (o.locs.getD w []).Perm (sl.1 ++ (o.locs.getD w []).drop sl.1.length) := by
+      rw [h.locs]
+      conv => lhs; rw [← List.take_append_drop sl.1.length (s.locs.getD w [])]
+      rw [← h1]
+    obtain ⟨rest, hre, hrp⟩ := eraseAll?_of_perm hperm
+    refine ⟨{ o with locs := o.locs.set w sl.1, market := rest ++ o.market }, ?_, rfl, ?_⟩
     · refine ⟨hpinv, h.pc.notifyPicks _, by simp [h.locs], h.created, ?_, h.dropS, ?_, ?_, ?_⟩
       · intro hk2; simp only [known, hk] at hk2; cases hk2
-      · show (_ ++ o.market).Perm sl.2.flatten
-        rw [h2, h.locs]; exact h.market.append_left _
+      · show (rest ++ o.market).Perm sl.2.flatten
+        rw [h2, ← h.locs]; exact hrp.append h.market
       · show o.emptyBatches ≤ List.count [] sl.2
         rw [h3]; exact h.eb
       · intro hc; simp at hc
     · intro cont
-      have hne : (sl.1 != (o.locs.getD w []).take sl.1.length) = false := by
-        rw [h.locs, ← h1]; simp
-      simp only [obody, hM, hact, hk, hr, hne, List.isEmpty_nil, Bool.not_true, Bool.false_eq_true, if_false, if_true]
-
-
+      simp only [obody, hM, hact, hk, hr, hre, List.isEmpty_nil, Bool.not_true, Bool.false_eq_true, if_false, if_true]
 
 theorem sim_drop {k s o picks s' a r w} (h : Sim k s o)
     (hs : evStep s (.drop w) picks = some (s', a)) :
@@ -1229,7 +1334,7 @@ def RendersAll : List Ans → List SExp → Prop
 
 theorem sim_run {k : Nat} (evs : List Ev) : ∀ (s : MState) (o : Obs) (as : List Ans) (sf : MState) (rs : List SExp),
     Sim k s o → mkRun s evs = some (as, sf) → disciplined s (known o) evs = true → RendersAll as rs →
-    ∃ of, oracle k o evs rs = .ok of ∧ Sim k sf of := by
+    ∃ of, oracleR k o evs rs = .ok of ∧ Sim k sf of := by
   induction evs with
   | nil =>
     intro s o as sf rs h hm _ hr
@@ -1311,6 +1416,19 @@ structure Ledger where
   parked : List Nat := []
   exited : List Nat := []
 
+/-- multiset difference: `l` with one occurrence of every element of `b` removed (what `split` shared, the caller
+    keeping `b`) -/
+def ldiff (l b : List Nat) : List Nat := b.foldl List.erase l
+
+theorem ldiff_of_eraseAll? {b l m : List Nat} (h : eraseAll? l b = some m) : ldiff l b = m := by
+  induction b generalizing l with
+  | nil => simp [eraseAll?] at h; subst h; rfl
+  | cons t ts ih =>
+    simp only [eraseAll?] at h
+    split at h
+    · exact ih h
+    · cases h
+
 def ledgerStep (l : Ledger) (e : Ev) (r : SExp) : Ledger :=
   match e with
   | .xpush toks => { l with pushed := toks ++ l.pushed }
@@ -1326,7 +1444,7 @@ def ledgerStep (l : Ledger) (e : Ev) (r : SExp) : Ledger :=
                           locs := l.locs.set w ((l.locs.getD w []).drop n) }
   | .split w =>
     match resToks? r with
-    | some after => { l with pushed := (l.locs.getD w []).drop after.length ++ l.pushed, locs := l.locs.set w after }
+    | some after => { l with pushed := ldiff (l.locs.getD w []) after ++ l.pushed, locs := l.locs.set w after }
     | none => l
   | .work w c fresh =>
     { l with locs := l.locs.set w (fresh ++ (l.locs.getD w []).take ((l.locs.getD w []).length - c)) }
@@ -1498,25 +1616,25 @@ theorem led_split {k l o w r cont of} (h : Led k l o) (ho : obody k o (.split w)
       have hae : after = [] := by simpa using hae
       subst hae
       have hls : ledgerStep l (.split w) r =
-          { l with pushed := (l.locs.getD w []).drop ([] : List Nat).length ++ l.pushed,
+          { l with pushed := ldiff (l.locs.getD w []) [] ++ l.pushed,
                    locs := l.locs.set w [] } := by simp only [ledgerStep, hr]
       rw [hls]
       refine ⟨_, ho, ⟨?_, h.parked, h.exited, h.pa⟩, rfl⟩
-      show LT (l.locs.set w []) ((l.locs.getD w []).drop 0 ++ l.pushed) l.popped (o.locs.set w []) o.market
+      show LT (l.locs.set w []) (ldiff (l.locs.getD w []) [] ++ l.pushed) l.popped (o.locs.set w []) o.market
         (o.shutSeen || o.dropSeen)
       rw [hk, ← hll]; exact (hlt.pushLost _).setLocs w _
     · cases ho
   · split at ho
     · cases ho
-    · have hls : ledgerStep l (.split w) r =
-          { l with pushed := (l.locs.getD w []).drop after.length ++ l.pushed,
+    · rename_i rest hre
+      have hls : ledgerStep l (.split w) r =
+          { l with pushed := ldiff (l.locs.getD w []) after ++ l.pushed,
                    locs := l.locs.set w after } := by simp only [ledgerStep, hr]
       rw [hls]
       refine ⟨_, ho, ⟨?_, h.parked, h.exited, h.pa⟩, rfl⟩
-      show LT (l.locs.set w after) ((l.locs.getD w []).drop after.length ++ l.pushed) l.popped (o.locs.set w after)
-        ((o.locs.getD w []).drop after.length ++ o.market) (known o)
-      rw [← hll]; exact (hlt.pushMk _).setLocs w _
-
+      show LT (l.locs.set w after) (ldiff (l.locs.getD w []) after ++ l.pushed) l.popped (o.locs.set w after)
+        (rest ++ o.market) (known o)
+      rw [← hll, ldiff_of_eraseAll? hre]; exact (hlt.pushMk _).setLocs w _
 
 theorem PA.dropW {k P X M} (h : PA k P X M) {w : Nat} (hw : w < k ∧ w ∉ P ∧ w ∉ X) : PA k P (w :: X) P := by
   refine ⟨h.pn, ?_, fun hp => Or.inr hp⟩
@@ -1750,18 +1868,18 @@ theorem led_step {k l o e r cont of} (h : Led k l o) (ho : obody k o e r cont = 
 
 
 theorem led_run {k : Nat} (evs : List Ev) : ∀ (rs : List SExp) (l : Ledger) (o of : Obs),
-    Led k l o → oracle k o evs rs = .ok of →
+    Led k l o → oracleR k o evs rs = .ok of →
     Led k (ledger l evs rs) of ∧ (noClose evs rs = true → known of = known o) := by
   induction evs with
   | nil =>
     intro rs l o of h ho
     cases rs with
-    | nil => simp only [oracle, Except.ok.injEq] at ho; subst ho; exact ⟨h, fun _ => rfl⟩
-    | cons r rs => simp [oracle] at ho
+    | nil => simp only [oracleR, Except.ok.injEq] at ho; subst ho; exact ⟨h, fun _ => rfl⟩
+    | cons r rs => simp [oracleR] at ho
   | cons e es ih =>
     intro rs l o of h ho
     cases rs with
-    | nil => simp [oracle] at ho
+    | nil => simp [oracleR] at ho
     | cons r rs =>
       rw [oracle_cons] at ho
       obtain ⟨o', h1, h2, h3⟩ := led_step h ho
@@ -1826,7 +1944,7 @@ theorem park_market {k o e cont of} (hp : isParkEv e r = true) (ho : obody k o e
     exact opop_park_market ho
 
 theorem led_slept {k : Nat} (evs : List Ev) : ∀ (rs : List SExp) (l : Ledger) (c : Bool) (o of : Obs),
-    Led k l o → (c = false → known o = false) → oracle k o evs rs = .ok of → sleptOnJobs l c evs rs = false := by
+    Led k l o → (c = false → known o = false) → oracleR k o evs rs = .ok of → sleptOnJobs l c evs rs = false := by
   induction evs with
   | nil => intro rs l c o of _ _ _; rfl
   | cons e es ih =>
@@ -1856,16 +1974,25 @@ theorem led_slept {k : Nat} (evs : List Ev) : ∀ (rs : List SExp) (l : Ledger) 
 
 /-! ### the driver command -/
 
-/-- the answer of the driver command `o-mk` on parsed arguments (`handle_omk`) -/
+/-- the answer of the driver command `o-mk` on parsed arguments, with the relaxed oracle -/
 def verdict (k : Nat) (evs : List Ev) (rs : List SExp) : String :=
+  match oracleR k { locs := List.replicate k [] } evs rs with
+  | .error err => err
+  | .ok o => (oracleEnd o).getD "ok"
+
+/-- the same with the LIVE `Drv.C05.oracle` (what `handle` calls) -/
+def verdictLive (k : Nat) (evs : List Ev) (rs : List SExp) : String :=
   match oracle k { locs := List.replicate k [] } evs rs with
   | .error err => err
   | .ok o => (oracleEnd o).getD "ok"
 
 theorem handle_omk {ksx tcsx esx : SExp} {k : Nat} {evs : List Ev} (rs : List SExp) (hk : ksx.nat? = some k)
     (he : esx.listOf? evOf? = some evs) :
-    Drv.C05.handle "o-mk" [ksx, tcsx, esx, .list rs] = some (verdict k evs rs) := by
-  simp only [Drv.C05.handle, hk, he, SExp.list?, verdict]
+    Drv.C05.handle "o-mk" [ksx, tcsx, esx, .list rs] = some (verdictLive k evs rs) := by
+  simp only [Drv.C05.handle, hk, he, SExp.list?, verdictLive]
   rfl
+
+theorem verdictLive_eq (hR : @oracle = @oracleR) : verdictLive = verdict := by
+  funext k evs rs; simp only [verdictLive, verdict, hR]
 
 end SR.C05Oracle
